@@ -1,1 +1,782 @@
-// harness stub: nothing here yet
+// Correspondence harnesses anchored in daemon/src/table_manager.rs
+// (body of `mod verif_hx`, a child of `table_manager`: private items via super::*).
+//
+//   verif_fib_cases  (C20)  a real TableManager with a capturing KernelHandle is
+//                           driven through a history; per operation the captured
+//                           request stream and the RIB views are printed.
+//   verif_sub_cases  (C18)  see the second half of this file.
+use super::*;
+#[allow(dead_code)]
+mod val {
+    include!(concat!(env!("VERIF_HX_DIR"), "/common/val.rs"));
+}
+use std::net::Ipv4Addr;
+use val::Val;
+
+// ------------------------------------------------------------------ shared
+fn peer_addr(p: u32) -> IpAddr {
+    IpAddr::V4(Ipv4Addr::new(192, 168, 0, p as u8))
+}
+fn nh_addr(a: u32) -> Ipv4Addr {
+    Ipv4Addr::new(10, 9, 0, a as u8)
+}
+fn nh_id(a: IpAddr) -> i128 {
+    match a {
+        IpAddr::V4(v) => v.octets()[3] as i128,
+        IpAddr::V6(_) => -7,
+    }
+}
+fn plain_net(id: u32) -> packet::bgp::Ipv4Net {
+    packet::bgp::Ipv4Net {
+        addr: Ipv4Addr::new(10, id as u8, 0, 0),
+        mask: 24,
+    }
+}
+/// prefix (kind, id): kind 0 = IPv4 unicast 10.<id>.0.0/24, kind 1 = VPNv4 with
+/// inner prefix 10.<100+id>.0.0/24 (so that the VRF-local form, printed as kind 2,
+/// never collides with a kind-0 prefix).
+fn mk_net(kind: u32, id: u32) -> (Family, packet::Nlri) {
+    if kind == 0 {
+        (Family::IPV4, packet::Nlri::V4(plain_net(id)))
+    } else {
+        let prefix = plain_net(100 + id);
+        let rd = packet::rd::RouteDistinguisher::TwoOctetAs {
+            admin: 65000,
+            assigned: 1,
+        };
+        let labels = packet::mpls::MplsLabelStack::new(vec![packet::mpls::MplsLabel::new(16)]);
+        (
+            Family::IPV4_VPN,
+            packet::Nlri::VpnV4(packet::vpn::VpnV4Nlri { prefix, rd, labels }),
+        )
+    }
+}
+fn net_val(n: &packet::Nlri) -> Val {
+    match n {
+        packet::Nlri::V4(p) => {
+            let b = p.addr.octets()[1] as i128;
+            if b >= 100 {
+                Val::L(vec![Val::I(2), Val::I(b - 100)])
+            } else {
+                Val::L(vec![Val::I(0), Val::I(b)])
+            }
+        }
+        packet::Nlri::VpnV4(v) => Val::L(vec![Val::I(1), Val::I(v.prefix.addr.octets()[1] as i128 - 100)]),
+        _ => Val::L(vec![Val::I(9), Val::I(0)]),
+    }
+}
+fn rt_bytes(r: u32) -> [u8; 8] {
+    [0x00, 0x02, 0xfd, 0xe8, 0x00, 0x00, 0x00, r as u8]
+}
+fn as_path(len: u8) -> packet::Attribute {
+    let mut bin = vec![packet::Attribute::AS_PATH_TYPE_SEQ, len];
+    for i in 0..len as u32 {
+        bin.extend_from_slice(&(65100 + i).to_be_bytes());
+    }
+    packet::Attribute::new_with_bin(packet::Attribute::AS_PATH, bin).unwrap()
+}
+/// Attribute block for a rank class `pref` (0 = most preferred): the classes are
+/// separated by LOCAL_PREF, AS_PATH length and ORIGIN in turn, so that the
+/// abstract "lower pref wins" of the model runs through decision steps 2-4.
+fn mk_attrs(pref: u32, llgrc: bool, nollgr: bool, rts: &[u32]) -> Arc<Vec<packet::Attribute>> {
+    let (lp, plen, origin) = match pref {
+        0 => (200u32, 2u8, 0u32),
+        1 => (100, 1, 0),
+        2 => (100, 2, 0),
+        3 => (100, 2, 1),
+        4 => (100, 2, 2),
+        k => (90u32.saturating_sub(k), 2, 0),
+    };
+    let mut v = vec![
+        packet::Attribute::new_with_value(packet::Attribute::ORIGIN, origin).unwrap(),
+        as_path(plen),
+        packet::Attribute::new_with_value(packet::Attribute::LOCAL_PREF, lp).unwrap(),
+    ];
+    let mut comm = Vec::new();
+    if llgrc {
+        comm.extend_from_slice(&0xffff_0006u32.to_be_bytes());
+    }
+    if nollgr {
+        comm.extend_from_slice(&0xffff_0007u32.to_be_bytes());
+    }
+    if !comm.is_empty() {
+        v.push(packet::Attribute::new_with_bin(packet::Attribute::COMMUNITY, comm).unwrap());
+    }
+    if !rts.is_empty() {
+        let mut data = Vec::new();
+        for r in rts {
+            data.extend_from_slice(&rt_bytes(*r));
+        }
+        v.push(packet::Attribute::new_with_bin(packet::Attribute::EXTENDED_COMMUNITY, data).unwrap());
+    }
+    Arc::new(v)
+}
+
+struct World {
+    tm: TableManager,
+    /// (peer, sess) -> Source; peer 0 is Source::local()
+    srcs: Vec<((u32, u32), Arc<table::Source>)>,
+    peers: Vec<(u32, u32, bool)>,
+    attrs: Vec<(u32, Arc<Vec<packet::Attribute>>)>,
+    pols: Vec<Arc<table::PolicyAssignment>>,
+}
+
+impl World {
+    fn src(&mut self, peer: u32, sess: u32) -> Arc<table::Source> {
+        if peer == 0 {
+            // both pseudo-sources have remote address 0.0.0.0: session 0 is the
+            // gRPC-injected source, any other session the kernel-redistribution one
+            return if sess == 0 {
+                table::Source::local()
+            } else {
+                table::Source::kernel()
+            };
+        }
+        if let Some((_, s)) = self.srcs.iter().find(|(k, _)| *k == (peer, sess)) {
+            return s.clone();
+        }
+        let (_, rid, ibgp) = *self
+            .peers
+            .iter()
+            .find(|(p, _, _)| *p == peer)
+            .unwrap_or(&(peer, peer, false));
+        let s = Arc::new(table::Source::new(
+            peer_addr(peer),
+            IpAddr::V4(Ipv4Addr::new(127, 0, 0, 1)),
+            if ibgp { 65000 } else { 65000 + peer },
+            65000,
+            Ipv4Addr::new(1, 1, 1, rid as u8),
+            if ibgp {
+                table::PeerRole::Ibgp
+            } else {
+                table::PeerRole::Ebgp
+            },
+        ));
+        self.srcs.push(((peer, sess), s.clone()));
+        s
+    }
+    fn src_id(&self, s: &Arc<table::Source>) -> (i128, i128) {
+        if s.is_local() {
+            return (0, 0);
+        }
+        if s.is_kernel() {
+            return (0, 1);
+        }
+        for ((p, q), x) in &self.srcs {
+            if Arc::ptr_eq(x, s) {
+                return (*p as i128, *q as i128);
+            }
+        }
+        (-1, -1)
+    }
+    fn tok_of(&self, a: &Arc<Vec<packet::Attribute>>) -> i128 {
+        for (t, x) in &self.attrs {
+            if Arc::ptr_eq(x, a) {
+                return *t as i128;
+            }
+        }
+        -1
+    }
+}
+
+fn nh_val(n: Option<bgp::Nexthop>) -> Val {
+    Val::opt(n.map(|x| Val::I(nh_id(x.addr()))))
+}
+
+const FAMS: [Family; 2] = [Family::IPV4, Family::IPV4_VPN];
+
+/// Adj-RIB-In and Loc-RIB views of the whole table, canonical order.
+///   [ [net, [[peer,sess,pid,nh,tok,unfiltered]...] (rank order),
+///           [[peer,sess,nh,tok,stale,llgr]...] (eligible, rank order)] ... ] sorted by net
+fn rib_view(w: &World) -> Val {
+    let mut dests: Vec<(Vec<i128>, Vec<Val>, Vec<Val>)> = Vec::new();
+    fn slot<'a>(d: &'a mut Vec<(Vec<i128>, Vec<Val>, Vec<Val>)>, k: Vec<i128>) -> &'a mut (Vec<i128>, Vec<Val>, Vec<Val>) {
+        if let Some(i) = d.iter().position(|x| x.0 == k) {
+            return &mut d[i];
+        }
+        d.push((k, vec![], vec![]));
+        d.last_mut().unwrap()
+    }
+    fn key(n: &packet::Nlri) -> Vec<i128> {
+        net_val(n).list().iter().map(|v| v.int()).collect()
+    }
+    for shard in &w.tm.shards {
+        let t = shard.lock().unwrap();
+        for f in FAMS {
+            let post: Vec<(Vec<i128>, i128, u32)> = t
+                .rtable
+                .iter_reach_post(f)
+                .map(|r| (key(&r.net.nlri), w.src_id(&r.source).0, r.net.path_id))
+                .collect();
+            for r in t.rtable.iter_reach(f) {
+                let k = key(&r.net.nlri);
+                let (p, s) = w.src_id(&r.source);
+                let unf = post.iter().any(|x| x.0 == k && x.1 == p && x.2 == r.net.path_id);
+                slot(&mut dests, k).1.push(Val::L(vec![
+                    Val::I(p),
+                    Val::I(s),
+                    Val::n(r.net.path_id),
+                    nh_val(r.nexthop),
+                    Val::I(w.tok_of(&r.attr)),
+                    Val::b(unf),
+                ]));
+            }
+            for c in t.rtable.collect_loc_rib_paths(&f) {
+                let k = key(&c.net);
+                for p in c.current_paths.iter() {
+                    let (pp, ss) = w.src_id(&p.source);
+                    slot(&mut dests, k.clone()).2.push(Val::L(vec![
+                        Val::I(pp),
+                        Val::I(ss),
+                        nh_val(p.nexthop),
+                        Val::I(w.tok_of(&p.attr)),
+                        Val::b(p.source.is_stale()),
+                        Val::b(p.source.is_llgr_stale()),
+                    ]));
+                }
+            }
+        }
+    }
+    dests.sort_by(|a, b| a.0.cmp(&b.0));
+    Val::L(
+        dests
+            .into_iter()
+            .map(|(k, a, e)| Val::L(vec![Val::L(k.into_iter().map(Val::I).collect()), Val::L(a), Val::L(e)]))
+            .collect(),
+    )
+}
+
+// ------------------------------------------------------------------ C20
+fn drain(rx: &mut kernel::VerifReceiver) -> Val {
+    let mut out = Vec::new();
+    while let Some(r) = rx.try_next() {
+        match r {
+            kernel::VerifRequest::Apply(c) => out.push(Val::L(vec![
+                Val::I(0),
+                Val::opt(c.table_id.map(Val::n)),
+                net_val(&c.net),
+                Val::L(c.nexthops.iter().map(|n| Val::I(nh_id(n.addr()))).collect()),
+            ])),
+            kernel::VerifRequest::RegisterNexthop(a) => out.push(Val::L(vec![Val::I(1), Val::I(nh_id(a))])),
+            kernel::VerifRequest::UnregisterNexthop(a) => out.push(Val::L(vec![Val::I(2), Val::I(nh_id(a))])),
+            kernel::VerifRequest::CreateVrf { .. } | kernel::VerifRequest::DeleteVrf { .. } => {}
+        }
+    }
+    Val::L(out)
+}
+
+fn mk_policy(k: usize, rules: &[Val]) -> Arc<table::PolicyAssignment> {
+    // one statement per rule: condition "neighbour is <peer>", disposition and
+    // optional next-hop action.  (PolicyTable refuses next-hop actions in an
+    // *import* assignment, so the assignment is built as an export one: the
+    // PolicyAssignment value itself carries no direction.)
+    let mut pt = table::PolicyTable::new();
+    let mut names = Vec::new();
+    for (i, r) in rules.iter().enumerate() {
+        let peer = r.at(0).u32();
+        let act = r.at(1);
+        let ns = format!("ns{}_{}", k, i);
+        pt.add_defined_set(table::DefinedSetConfig::Neighbor {
+            name: ns.clone(),
+            neighbors: vec![format!("{}/32", peer_addr(peer))],
+        })
+        .unwrap();
+        let (disp, actions) = match act.at(0).u32() {
+            1 => (table::Disposition::Reject, table::Actions::default()),
+            2 => (
+                table::Disposition::Accept,
+                table::Actions {
+                    nexthop: Some(table::NexthopAction::Address(IpAddr::V4(nh_addr(act.at(1).u32())))),
+                    ..table::Actions::default()
+                },
+            ),
+            _ => (table::Disposition::Accept, table::Actions::default()),
+        };
+        let st = format!("st{}_{}", k, i);
+        pt.add_statement(
+            &st,
+            vec![table::ConditionConfig::NeighborSet(ns, table::MatchOption::Any)],
+            Some(disp),
+            actions,
+        )
+        .unwrap();
+        names.push(st);
+    }
+    let pn = format!("pol{}", k);
+    pt.add_policy(&pn, names).unwrap();
+    let (_, a) = pt
+        .add_assignment("ribs", table::PolicyDirection::Export, table::Disposition::Accept, vec![pn])
+        .unwrap();
+    a
+}
+
+fn mk_world(cfg: &Val, shards: usize) -> World {
+    let mut w = World {
+        tm: TableManager::new(shards),
+        srcs: vec![],
+        peers: cfg.at(0).list().iter().map(|p| (p.at(0).u32(), p.at(1).u32(), p.at(2).bool())).collect(),
+        attrs: vec![],
+        pols: vec![],
+    };
+    for a in cfg.at(1).list() {
+        let rts: Vec<u32> = a.at(4).list().iter().map(|r| r.u32()).collect();
+        w.attrs.push((a.at(0).u32(), mk_attrs(a.at(1).u32(), a.at(2).bool(), a.at(3).bool(), &rts)));
+    }
+    let mut vrfs: FnvHashMap<String, table::Vrf> = FnvHashMap::default();
+    for (i, v) in cfg.at(2).list().iter().enumerate() {
+        let name = format!("vrf{}", i);
+        vrfs.insert(
+            name.clone(),
+            table::Vrf {
+                name,
+                rd: packet::rd::RouteDistinguisher::TwoOctetAs {
+                    admin: 65000,
+                    assigned: 1,
+                },
+                import_rt: v.at(1).list().iter().map(|r| rt_bytes(r.u32())).collect(),
+                export_rt: Vec::new(),
+                label: packet::mpls::MplsLabel::new(16 + i as u32),
+                id: v.at(0).u32(),
+            },
+        );
+    }
+    w.tm.vrfs.store(Arc::new(vrfs));
+    for (k, p) in cfg.at(3).list().iter().enumerate() {
+        w.pols.push(mk_policy(k, p.list()));
+    }
+    w
+}
+
+fn fib_op(w: &mut World, op: &Val) {
+    let fams = FAMS.to_vec();
+    match op.at(0).u32() {
+        0 => {
+            let s = w.src(op.at(1).u32(), op.at(2).u32());
+            let (f, n) = mk_net(op.at(3).u32(), op.at(4).u32());
+            let nh = op.at(6).list().first().map(|a| bgp::Nexthop::V4(nh_addr(a.u32())));
+            let tok = op.at(7).u32();
+            let attr = w.attrs.iter().find(|(t, _)| *t == tok).expect("attr token").1.clone();
+            w.tm.insert_route(
+                s,
+                f,
+                packet::PathNlri {
+                    nlri: n,
+                    path_id: op.at(5).u32(),
+                },
+                nh,
+                attr,
+                None,
+                0,
+            );
+        }
+        1 => {
+            let s = w.src(op.at(1).u32(), op.at(2).u32());
+            let (f, n) = mk_net(op.at(3).u32(), op.at(4).u32());
+            w.tm.remove_route(
+                s,
+                f,
+                packet::PathNlri {
+                    nlri: n,
+                    path_id: op.at(5).u32(),
+                },
+                None,
+                0,
+            );
+        }
+        2 => w.tm.drop_families(peer_addr(op.at(1).u32()), &fams),
+        3 => w.tm.unregister_peer(peer_addr(op.at(1).u32()), &[], &fams),
+        4 => w.tm.drop_stale_families(peer_addr(op.at(1).u32()), &fams),
+        5 => w.tm.mark_llgr_stale(peer_addr(op.at(1).u32()), &fams),
+        6 => w.tm.drop_llgr_stale_families(peer_addr(op.at(1).u32()), &fams),
+        7 => w.tm.update_nexthop_validity(IpAddr::V4(nh_addr(op.at(1).u32())), op.at(2).bool()),
+        8 => {
+            let k = op.at(1).usize();
+            if k == 0 {
+                w.tm.import_policy.store(None);
+            } else {
+                w.tm.import_policy.store(Some(w.pols[k - 1].clone()));
+            }
+        }
+        9 => w.tm.soft_reset_in(peer_addr(op.at(1).u32())),
+        10 => w.tm.unregister_peer(peer_addr(op.at(1).u32()), &fams, &[]),
+        _ => panic!("verif: unknown op"),
+    }
+}
+
+/// case = [cfg, shards, ops]; observation = one [requests, rib view] per op.
+fn run_fib_case(case: &Val) -> Val {
+    let mut w = mk_world(case.at(0), case.at(1).usize().max(1));
+    let (h, mut rx) = kernel::KernelHandle::verif_capture();
+    w.tm.kernel_handle.store(Some(Arc::new(h)));
+    let mut out = Vec::new();
+    for op in case.at(2).list() {
+        fib_op(&mut w, op);
+        let reqs = drain(&mut rx);
+        out.push(Val::L(vec![reqs, rib_view(&w)]));
+    }
+    Val::L(out)
+}
+
+#[test]
+fn verif_fib_cases() {
+    val::run_cases(run_fib_case);
+}
+
+// ------------------------------------------------------------------ C18
+// Real threads run the real TableManager code; a deterministic scheduler grants
+// one step at a time in the order the case dictates.  A step is the stretch of
+// code between two scheduling points (verif_sched::point in table_manager.rs
+// before every shard-lock acquisition, plus one here before every operation).
+use std::sync::Condvar;
+use std::time::Duration;
+
+struct SchedState {
+    turn: Option<usize>,
+    parked: Vec<bool>,
+    done: Vec<bool>,
+    dead: bool,
+}
+struct Sched {
+    st: Mutex<SchedState>,
+    cv: Condvar,
+}
+const SCHED_WAIT: Duration = Duration::from_secs(20);
+
+impl Sched {
+    fn new(n: usize) -> Sched {
+        Sched {
+            st: Mutex::new(SchedState {
+                turn: None,
+                parked: vec![false; n],
+                done: vec![false; n],
+                dead: false,
+            }),
+            cv: Condvar::new(),
+        }
+    }
+    /// called by thread `i` at a scheduling point: wait for the next grant
+    fn park(&self, i: usize) {
+        let mut g = self.st.lock().unwrap();
+        g.parked[i] = true;
+        self.cv.notify_all();
+        while g.turn != Some(i) {
+            if g.dead {
+                panic!("verif: scheduler abandoned the case");
+            }
+            let (ng, to) = self.cv.wait_timeout(g, SCHED_WAIT).unwrap();
+            g = ng;
+            if to.timed_out() && g.turn != Some(i) {
+                g.dead = true;
+                self.cv.notify_all();
+                panic!("verif: thread {} starved at a scheduling point", i);
+            }
+        }
+        g.turn = None;
+    }
+    fn finish(&self, i: usize) {
+        let mut g = self.st.lock().unwrap();
+        g.done[i] = true;
+        self.cv.notify_all();
+    }
+    /// scheduler side: wait until thread `i` is parked or done
+    fn settle(&self, i: usize) -> bool {
+        let mut g = self.st.lock().unwrap();
+        while !(g.parked[i] || g.done[i]) {
+            let (ng, to) = self.cv.wait_timeout(g, SCHED_WAIT).unwrap();
+            g = ng;
+            if to.timed_out() && !(g.parked[i] || g.done[i]) {
+                g.dead = true;
+                self.cv.notify_all();
+                panic!("verif: thread {} did not reach a scheduling point (deadlock?)", i);
+            }
+        }
+        g.done[i]
+    }
+    /// grant one step to thread `i`; false when it has already finished
+    fn grant(&self, i: usize) -> bool {
+        if self.settle(i) {
+            return false;
+        }
+        {
+            let mut g = self.st.lock().unwrap();
+            g.parked[i] = false;
+            g.turn = Some(i);
+            self.cv.notify_all();
+        }
+        self.settle(i);
+        true
+    }
+}
+
+struct SubWorld {
+    tm: TableManager,
+    srcs: Vec<Arc<table::Source>>,                 // index = peer
+    attrs: Vec<Arc<Vec<packet::Attribute>>>,       // index = token
+    nets: [[packet::Nlri; 4]; 2],                  // [shard][index]
+    pols: Vec<Arc<table::PolicyAssignment>>,
+    ctrs: Vec<Arc<std::sync::atomic::AtomicU64>>,  // index = peer
+    lims: Vec<Option<u32>>,
+}
+
+fn sub_net(w: &SubWorld, sh: usize, ix: usize) -> packet::Nlri {
+    w.nets[sh.min(1)][ix % 4].clone()
+}
+fn sub_key(w: &SubWorld, src: &table::Source, n: &packet::PathNlri) -> Val {
+    let peer = w.srcs.iter().position(|s| s.remote_addr == src.remote_addr).map(|x| x as i128).unwrap_or(-1);
+    let mut pos = (-1i128, -1i128);
+    for sh in 0..2 {
+        for ix in 0..4 {
+            if w.nets[sh][ix] == n.nlri {
+                pos = (sh as i128, ix as i128);
+            }
+        }
+    }
+    Val::L(vec![Val::I(peer), Val::I(pos.0), Val::I(pos.1), Val::n(n.path_id)])
+}
+fn sub_tok(w: &SubWorld, a: &Arc<Vec<packet::Attribute>>) -> Val {
+    Val::I(w.attrs.iter().position(|x| Arc::ptr_eq(x, a)).map(|x| x as i128).unwrap_or(-1))
+}
+
+fn sub_do_op(w: &SubWorld, op: &Val, slot: &Mutex<Option<Subscription>>) {
+    let path = |op: &Val| {
+        let peer = op.at(1).usize();
+        let n = sub_net(w, op.at(2).usize(), op.at(3).usize());
+        (
+            peer,
+            packet::PathNlri {
+                nlri: n,
+                path_id: op.at(4).u32(),
+            },
+        )
+    };
+    match op.at(0).u32() {
+        0 => {
+            let s = w.tm.subscribe(true);
+            *slot.lock().unwrap() = Some(s);
+        }
+        1 => {
+            let (peer, net) = path(op);
+            let pl = w.lims[peer].map(|m| (m, w.ctrs[peer].clone()));
+            w.tm.insert_route(
+                w.srcs[peer].clone(),
+                Family::IPV4,
+                net,
+                Some(bgp::Nexthop::V4(nh_addr(peer as u32))),
+                w.attrs[op.at(5).usize()].clone(),
+                pl,
+                7,
+            );
+        }
+        2 => {
+            let (peer, net) = path(op);
+            let ctr = w.lims[peer].map(|_| w.ctrs[peer].clone());
+            w.tm.remove_route(w.srcs[peer].clone(), Family::IPV4, net, ctr, 7);
+        }
+        3 => {
+            let p = op.at(1).usize();
+            let open = bgp::Message::Open(bgp::Open {
+                as_number: 65000 + p as u32,
+                holdtime: bgp::HoldTime::DISABLED,
+                router_id: p as u32,
+                capability: vec![],
+            });
+            w.tm.peer_up(PeerUpData {
+                peer_addr: peer_addr(p as u32),
+                peer_asn: 65000 + p as u32,
+                peer_id: p as u32,
+                uptime: 0,
+                local_addr: IpAddr::V4(Ipv4Addr::new(127, 0, 0, 1)),
+                local_port: 179,
+                remote_port: 179,
+                sent_open: open.clone(),
+                received_open: open,
+            });
+        }
+        4 => {
+            // the session-down glue of event/mod.rs: unregister_peer, then peer_down
+            let p = op.at(1).usize();
+            w.tm.unregister_peer(peer_addr(p as u32), &[Family::IPV4], &[]);
+            verif_sched::point(0);
+            w.tm.peer_down(PeerDownData {
+                peer_addr: peer_addr(p as u32),
+                peer_asn: 65000 + p as u32,
+                peer_id: p as u32,
+                uptime: 0,
+                reason: packet::bmp::PeerDownReason::RemoteUnexpected,
+            });
+            w.ctrs[p].store(0, std::sync::atomic::Ordering::Relaxed); // the session's counter dies with it
+        }
+        5 => w.tm.soft_reset_in(peer_addr(op.at(1).u32())),
+        6 => {
+            let k = op.at(1).usize();
+            if k == 0 || k > w.pols.len() {
+                w.tm.import_policy.store(None);
+            } else {
+                w.tm.import_policy.store(Some(w.pols[k - 1].clone()));
+            }
+        }
+        _ => panic!("verif: unknown op"),
+    }
+}
+
+/// case = [[pols, lims], progs, sched]
+fn run_sub_case(case: &Val) -> Val {
+    const NPEER: usize = 4;
+    let tm = TableManager::new(2);
+    // concrete prefixes for (shard, index)
+    let mut found: [Vec<packet::Nlri>; 2] = [vec![], vec![]];
+    let mut x = 1u32;
+    while found[0].len() < 4 || found[1].len() < 4 {
+        let n = packet::Nlri::V4(packet::bgp::Ipv4Net {
+            addr: Ipv4Addr::new(10, (x >> 8) as u8, x as u8, 0),
+            mask: 24,
+        });
+        let s = tm.dealer(&n);
+        if found[s].len() < 4 {
+            found[s].push(n);
+        }
+        x += 1;
+    }
+    let nets = [
+        [found[0][0].clone(), found[0][1].clone(), found[0][2].clone(), found[0][3].clone()],
+        [found[1][0].clone(), found[1][1].clone(), found[1][2].clone(), found[1][3].clone()],
+    ];
+    let cfg = case.at(0);
+    let mut lims = vec![None; NPEER];
+    for l in cfg.at(1).list() {
+        lims[l.at(0).usize()] = Some(l.at(1).u32());
+    }
+    let w = SubWorld {
+        tm,
+        srcs: (0..NPEER as u32)
+            .map(|p| {
+                Arc::new(table::Source::new(
+                    peer_addr(p),
+                    IpAddr::V4(Ipv4Addr::new(127, 0, 0, 1)),
+                    65000 + p,
+                    65000,
+                    Ipv4Addr::new(1, 1, 1, p as u8),
+                    table::PeerRole::Ebgp,
+                ))
+            })
+            .collect(),
+        attrs: (0..8u32).map(|t| mk_attrs(t % 3, false, false, &[t])).collect(),
+        nets,
+        pols: cfg
+            .at(0)
+            .list()
+            .iter()
+            .enumerate()
+            .map(|(k, peers)| {
+                let rules: Vec<Val> = peers.list().iter().map(|p| Val::L(vec![p.clone(), Val::L(vec![Val::I(1)])])).collect();
+                mk_policy(k, &rules)
+            })
+            .collect(),
+        ctrs: (0..NPEER).map(|_| Arc::new(std::sync::atomic::AtomicU64::new(0))).collect(),
+        lims,
+    };
+    let progs = case.at(1).list();
+    let n = progs.len();
+    let sched = Arc::new(Sched::new(n));
+    let slot: Mutex<Option<Subscription>> = Mutex::new(None);
+    std::thread::scope(|sc| {
+        for (i, prog) in progs.iter().enumerate() {
+            let sched = sched.clone();
+            let w = &w;
+            let slot = &slot;
+            sc.spawn(move || {
+                let s2 = sched.clone();
+                verif_sched::install(Box::new(move |_id| s2.park(i)));
+                let r = std::panic::catch_unwind(std::panic::AssertUnwindSafe(|| {
+                    for op in prog.list() {
+                        verif_sched::point(0);
+                        sub_do_op(w, op, slot);
+                    }
+                }));
+                sched.finish(i);
+                if let Err(e) = r {
+                    std::panic::resume_unwind(e);
+                }
+            });
+        }
+        for t in case.at(2).list() {
+            let i = t.usize();
+            if i < n {
+                sched.grant(i);
+            }
+        }
+        for i in 0..n {
+            while sched.grant(i) {}
+        }
+    });
+    // what the subscriber received, and its fold (bmp.rs apply_snapshot / track_peer_*)
+    let mut evs = Vec::new();
+    let mut pre: crate::bmp::verif_fold::Snapshot = FnvHashMap::default();
+    let mut post: crate::bmp::verif_fold::Snapshot = FnvHashMap::default();
+    let mut sent: FnvHashSet<IpAddr> = FnvHashSet::default();
+    let mut fwd = Vec::new();
+    let peer_of = |a: IpAddr| Val::I(nh_id(a));
+    if let Some(mut sub) = slot.lock().unwrap().take() {
+        while let Ok(e) = sub.rx.try_recv() {
+            match e {
+                BgpEvent::AdjRibIn(c) => {
+                    for nl in &c.nlris {
+                        evs.push(Val::L(vec![Val::I(0), sub_key(&w, &c.source, nl), Val::opt(c.attrs.as_ref().map(|a| sub_tok(&w, a)))]));
+                    }
+                    crate::bmp::verif_fold::apply(&mut pre, c);
+                }
+                BgpEvent::AdjRibInPost(c) => {
+                    for nl in &c.nlris {
+                        evs.push(Val::L(vec![Val::I(1), sub_key(&w, &c.source, nl), Val::opt(c.attrs.as_ref().map(|a| sub_tok(&w, a)))]));
+                    }
+                    crate::bmp::verif_fold::apply(&mut post, c);
+                }
+                BgpEvent::PeerUp(d) => {
+                    evs.push(Val::L(vec![Val::I(2), peer_of(d.peer_addr)]));
+                    crate::bmp::verif_fold::peer_up(&mut sent, d.peer_addr);
+                    fwd.push(Val::L(vec![Val::I(2), peer_of(d.peer_addr)]));
+                }
+                BgpEvent::PeerDown(d) => {
+                    evs.push(Val::L(vec![Val::I(3), peer_of(d.peer_addr)]));
+                    // a monitoring station forgets the peer's routes on Peer Down
+                    pre.remove(&d.peer_addr);
+                    post.remove(&d.peer_addr);
+                    if crate::bmp::verif_fold::peer_down(&mut sent, d.peer_addr) {
+                        fwd.push(Val::L(vec![Val::I(3), peer_of(d.peer_addr)]));
+                    }
+                }
+                BgpEvent::EndOfSnapshot => evs.push(Val::L(vec![Val::I(4)])),
+                _ => {}
+            }
+        }
+    }
+    let dump = |m: &crate::bmp::verif_fold::Snapshot| {
+        let mut v: Vec<Val> = Vec::new();
+        for pm in m.values() {
+            for ((_, nl), c) in pm {
+                v.push(Val::L(vec![sub_key(&w, &c.source, nl), sub_tok(&w, c.attrs.as_ref().unwrap())]));
+            }
+        }
+        v.sort_by_key(|x| format!("{}", x));
+        Val::L(v)
+    };
+    let mut rib_pre = Vec::new();
+    let mut rib_post = Vec::new();
+    for shard in &w.tm.shards {
+        let t = shard.lock().unwrap();
+        for r in t.rtable.iter_reach(Family::IPV4) {
+            rib_pre.push(Val::L(vec![sub_key(&w, &r.source, &r.net), sub_tok(&w, &r.attr)]));
+        }
+        for r in t.rtable.iter_reach_post(Family::IPV4) {
+            rib_post.push(Val::L(vec![sub_key(&w, &r.source, &r.net), sub_tok(&w, &r.attr)]));
+        }
+    }
+    rib_pre.sort_by_key(|x| format!("{}", x));
+    rib_post.sort_by_key(|x| format!("{}", x));
+    Val::L(vec![Val::L(evs), Val::L(rib_pre), Val::L(rib_post), dump(&pre), dump(&post), Val::L(fwd)])
+}
+
+#[test]
+fn verif_sub_cases() {
+    val::run_cases(run_sub_case);
+}
